@@ -17,8 +17,8 @@ InTransforms(n) == n = "I"
 Layer(pat, n) == IF n \in pat.data THEN "data" ELSE IF n \in pat.context THEN "context" ELSE IF InTransforms(n) THEN "transforms" ELSE "MISSING"
 
 \* values (three rows): data and context hold different numbers so that the source of a value is observable
-DataVal(n) == CASE n = "x" -> <<1, 2, 3>> [] n = "z" -> <<4, 5, 6>> [] n = "q" -> <<2, 2, 5>> [] OTHER -> <<50, 60, 70>>
-CtxVal(n) == CASE n = "x" -> <<10, 20, 30>> [] n = "z" -> <<7, 8, 9>> [] n = "q" -> <<11, 12, 13>> [] OTHER -> <<0, 0, 0>>
+DataVal(n) == CASE n = "x" -> <<1, 2, 3>> [] n = "z" -> <<4, 5, 6>> [] n = "q" -> <<2, 2, 5>> [] n = "r" -> <<3, 1, 4>> [] OTHER -> <<50, 60, 70>>
+CtxVal(n) == CASE n = "x" -> <<10, 20, 30>> [] n = "z" -> <<7, 8, 9>> [] n = "q" -> <<11, 12, 13>> [] n = "r" -> <<21, 22, 23>> [] OTHER -> <<0, 0, 0>>
 ValueOf(pat, n) == IF Layer(pat, n) = "data" THEN DataVal(n) ELSE CtxVal(n)
 \* the callable I: transforms -> identity; context -> a function adding 1000; a data column is not callable
 CallableOK(pat) == Layer(pat, "I") \in {"context", "transforms"}
@@ -39,16 +39,28 @@ fzc == F("z.T.copy()", "python", <<Read("z", "value")>>)
 fIq == F("I(`x y`)", "python", <<Read("I", "callable"), Read("q", "value")>>)
 \* the same callable twice inside one factor, on different arguments
 fII == F("I(x) + I(z)", "python", <<Read("I", "callable"), Read("x", "value"), Read("I", "callable"), Read("z", "value")>>)
+\* Two DIFFERENT quoted columns inside one python factor: "r" stands for a second column that needs quoting (`x-y`) and whose
+\* identifier-safe placeholder coincides with that of "q" (`x y`, `x-y` -> x_y).  To the model they are simply two names: each
+\* is looked up on its own, so either can be missing / come from another layer independently of the other.  The expressions
+\* are not symmetric in the two names (a difference), so that one name's value standing in for the other is observable.
+fqr == F("`x y` - `x-y`", "python", <<Read("q", "value"), Read("r", "value")>>)
+fIrq == F("I(`x-y` - `x y`)", "python", <<Read("I", "callable"), Read("r", "value"), Read("q", "value")>>)
+\* the names such a pattern ranges over (the family of the formulas that read "r")
+CollidingNames == {"q", "r"}
 \* formulas: sequences of terms, a term = sequence of factors (no intercept: 0 + ...)
 Formulas == << <<<<fx>>>>, <<<<fx>>, <<fz>>>>, <<<<fIx>>>>, <<<<fsum>>>>, <<<<fx>>, <<fz, fx>>>>, <<<<fIx>>, <<fz>>>>, <<<<fq>>, <<fq, fx>>>>, <<<<fI>>, <<fx>>>>,
-              <<<<fzt>>, <<fx>>>>, <<<<fzc>>>>, <<<<fII>>>>, <<<<fIq>>, <<fx>>>> >>
+              <<<<fzt>>, <<fx>>>>, <<<<fzc>>>>, <<<<fII>>>>, <<<<fIq>>, <<fx>>>>,
+              <<<<fqr>>>>, <<<<fIrq>>, <<fq>>>> >>
 FormulaText == << "0 + x", "0 + x + z", "0 + I(x)", "0 + {x + z}", "0 + x + z:x", "0 + I(x) + z", "0 + `x y` + `x y`:x", "0 + I + x",
-                 "0 + {z.T.T} + x", "0 + {z.T.copy()}", "0 + {I(x) + I(z)}", "0 + I(`x y`) + x" >>
+                 "0 + {z.T.T} + x", "0 + {z.T.copy()}", "0 + {I(x) + I(z)}", "0 + I(`x y`) + x",
+                 "0 + {`x y` - `x-y`}", "0 + I(`x-y` - `x y`) + `x y`" >>
 
 RECURSIVE FlatE(_, _)
 FlatE(G(_), s) == IF s = <<>> THEN <<>> ELSE G(Head(s)) \o FlatE(G, Tail(s))
 FactorsOf(form) == FlatE(LAMBDA t : t, form)
 ReadsOf(form) == FlatE(LAMBDA f : f.reads, FactorsOf(form))
+\* the formulas that read the second quoted name: their patterns range over CollidingNames, the others over Names
+ReadsR(form) == \E i \in DOMAIN ReadsOf(form) : ReadsOf(form)[i].name = "r"
 
 \* Formula.required_variables: value-role names that are not names of the transforms namespace
 RequiredBefore(form) ==
@@ -72,6 +84,8 @@ FactorVal(pat, f) ==
     [] f.e = "I(`x y`)" -> ApplyI(pat, ValueOf(pat, "q"))
     [] f.e = "I(x) + I(z)" -> LET a == ApplyI(pat, ValueOf(pat, "x")) b == ApplyI(pat, ValueOf(pat, "z")) IN [i \in 1..3 |-> a[i] + b[i]]
     [] f.e = "x + z" -> [i \in 1..3 |-> ValueOf(pat, "x")[i] + ValueOf(pat, "z")[i]]
+    [] f.e = "`x y` - `x-y`" -> [i \in 1..3 |-> ValueOf(pat, "q")[i] - ValueOf(pat, "r")[i]]
+    [] f.e = "I(`x-y` - `x y`)" -> ApplyI(pat, [i \in 1..3 |-> ValueOf(pat, "r")[i] - ValueOf(pat, "q")[i]])
 RECURSIVE TermVal(_, _)
 TermVal(pat, t) == IF t = <<>> THEN <<1, 1, 1>> ELSE LET h == FactorVal(pat, Head(t)) r == TermVal(pat, Tail(t)) IN [i \in 1..3 |-> h[i] * r[i]]
 RECURSIVE JoinE(_)
@@ -105,4 +119,18 @@ CaptureValue(stack, k, inglobals, indata) ==
 
 \* `.` : the data columns not used on the left-hand side, in data order
 DotExpand(cols, lhs) == SelectSeq(cols, LAMBDA c : c \notin lhs)
+\* The right-hand side around the `.`: signed items "1" / "0" (the intercept directives) and "." read from the left.  They decide
+\* about the intercept only - which columns `.` stands for does not depend on them, nor on how the first item's sign is
+\* written (`y ~ -1 + .` : the sign directly follows the `~`).  auto = the parser inserts an intercept by default.
+It(sign, item) == [sign |-> sign, item |-> item]
+DotRhs == << <<It("+", ".")>>, <<It("+", "0"), It("+", ".")>>, <<It("-", "1"), It("+", ".")>>, <<It("+", "."), It("-", "1")>>,
+             <<It("+", "1"), It("+", ".")>>, <<It("+", "."), It("+", "0")>>, <<It("+", ".")>> >>
+DotRhsText == << ".", "0 + .", "-1 + .", ". - 1", "1 + .", ". + 0", "+." >>       \* (the first and the last differ in the spelling only: a unary plus)
+RECURSIVE HasIntercept(_, _)
+HasIntercept(has, items) ==
+  IF items = <<>> THEN has
+  ELSE LET h == Head(items) IN
+       HasIntercept(CASE h.item = "1" -> (h.sign = "+") [] h.item = "0" /\ h.sign = "+" -> FALSE [] OTHER -> has, Tail(items))
+\* the terms of the right-hand side (the intercept "1" has degree 0 and is listed first)
+DotTerms(cols, lhs, items, auto) == (IF HasIntercept(auto, items) THEN <<"1">> ELSE <<>>) \o DotExpand(cols, lhs)
 =============================================================================
